@@ -7,6 +7,8 @@ import CimbaModel.HashHeap.Orders
 import CimbaModel.Sim.S3Grant
 import CimbaModel.Sim.S3Signals
 import CimbaModel.Sim.S3All
+import CimbaModel.Sim.S3GrantBuilt
+import CimbaModel.Sim.S3GrantT
 
 namespace CimbaModel.Props.C08
 open CimbaModel CimbaModel.Sim CimbaModel.Event CimbaModel.Generated CimbaModel.HashHeap.SpecOrders
@@ -184,12 +186,10 @@ theorem priority_queue_signals {w : World} {p : Pid} {k : Nat} {x : PQ} (hx : w.
 
 /-! ### quiescence
 
-Full statement (`grant_invariant`, `quiescent_ok` of DESIGN.md): `GrantInv w` holds in every reachable fault-free state,
-hence `dispatch w = none` implies that no front waiter of a non-condition guard has a true demand.
-Proved here: the second half, from `GrantInv`.  Missing: the preservation of `GrantInv` by `dispatch`, which needs, for
-every object type, that the process resumed by a grant either makes the front demand false or signals again before it
-yields (the per-primitive equations above are exactly those signals), together with the ownership invariant of grants
-(`NoStaleInv`, C04) to identify the pending grant with a waiter of this guard. -/
+Full statement (`grant_invariant`, `quiescent_ok` of DESIGN.md): proved at the end of this file, in a stronger, inductive
+form (`grant_invariant_reachable`, `grant_pending_if_satisfiable`, `quiescent_ok`): a grant OF THAT GUARD is pending, and
+for the queues as many grants as there are objects / free slots; at quiescence no waiter at all has a true demand.
+`quiescent_ok_partial` below is the original derivation of quiescence from the weaker `GrantInv`. -/
 
 theorem no_more_events_iff (w : World) : dispatch w = none ↔ w.ev.pending = [] := dispatch_none_iff w
 
@@ -234,5 +234,165 @@ theorem grant_has_owner {w0 w : World} (hr : Reach w0 w) (h0 : AllInv w0) {e : H
 theorem waiter_registered {w0 w : World} (hr : Reach w0 w) (h0 : AllInv w0) {g k : Nat} (hq : queued w g k) :
     ∃ p f, k = p + 1 ∧ p < w.procs.size ∧ Await.guard g ∈ (w.proc p).awaits ∧ guardAw w p = [.guard g] ∧
       (w.proc p).blocked = some f ∧ FrameOn w f g := (h0.reach hr).g.queued_means hq
+
+/-! ### the grant invariant in every reachable state; quiescence
+
+Object ends are named by their demand predicate: `gOf w d` is the guard of the end `d` (a resource, a pool, the front /
+rear of a buffer, object queue or priority queue), `need w d` what is available there in units of one grant (1 for
+resources, pools and buffers, whose consumers signal again; the number of objects / free slots for the queues, whose
+consumers take exactly one), `G w g` the number of pending grants (aRes, SUCCESS) whose process awaits `g`, `Qne w g`
+"the waiting list of `g` is not empty".
+
+`GrantAll S w` (Sim/S3GrantDispatch) = `AllInv` (Props/C04) ∧ `KInv S` (every handle recorded in a `hold` frame or stored
+in a variable in `S` is an issued handle that is not the handle of a grant) ∧ `EndSep` (distinct object ends have distinct
+guards — static) ∧ the static typing `KOk S` / `CvOk S` of the programs (the variables read by `cancelUser` /
+`timerCancel` are in `S`; `pqPut` does not write a variable in `S`; with `S := CancelVar w` this is the decidable
+predicate `VarsOk w`, executable form `varsOkB`) ∧, unless a fault has been recorded,
+* `HG` (homogeneity): every waiter of the guard of an object end has registered that end's demand, and
+* `GI`: for every object end with a non-empty waiting list, `need ≤ G`  — "a grant OF THAT GUARD for everything that is
+  available".
+It is preserved by `dispatch` for all programs: every command and every resumption re-establishes it (the process resumed
+by a grant takes what it was granted — `need` drops — or signals again; leaving a wait for another reason passes the grant
+on; process end, drops, rollbacks signal), priority changes cannot matter (homogeneity), and no handle that is cancelled
+by value is the handle of a grant (`KInv`).  "Unless a fault has been recorded": the model records a corrupt hashheap
+(holders of a pool, a priority queue) as a fault; faults are never cleared (C04). -/
+
+theorem grant_all_dispatch {S : Nat → Prop} {w w' : World} (h : GrantAll S w) (hd : dispatch w = some w') : GrantAll S w' :=
+  h.dispatch hd
+
+/-- `grant_invariant`: in every reachable fault-free state, every waiter of an object end's guard has registered that
+    end's demand, and for every object end with a non-empty waiting list there are at least as many pending grants of
+    its guard as units available -/
+theorem grant_invariant_reachable {S : Nat → Prop} {w0 w : World} (hr : Reach w0 w) (h0 : GrantAll S w0) (hf : w.fault = none) :
+    (∀ d g, gOf w d = some g → ∀ gd, w.guards[g]? = some gd → ∀ k ∈ keys (abs gd.q), demandOf gd k = d) ∧
+    (∀ d g, gOf w d = some g → Qne w g → need w d ≤ G w g) := by
+  obtain ⟨h1, h2⟩ := (h0.reach hr).gh hf
+  exact ⟨h1, fun d g hd hq => by have := h2 d g hd hq; omega⟩
+
+/-- … in the words of the original statement: if the demand of a non-empty waiting list's object end holds, a grant is
+    pending whose process is suspended in a wait on that very guard, still awaits it and is already off the list -/
+theorem grant_pending_if_satisfiable {S : Nat → Prop} {w0 w : World} (hr : Reach w0 w) (h0 : GrantAll S w0) (hf : w.fault = none)
+    {d : Demand} {g : Nat} (hd : gOf w d = some g) (hq : Qne w g) (hev : evalDemand w d = true) :
+    ∃ e ∈ w.ev.pending, e.item.a = aRes ∧ e.item.c = 0 ∧
+      ∃ p f, e.item.b = p + 1 ∧ (w.proc p).blocked = some f ∧ FrameOn w f g ∧ guardAw w p = [.guard g] ∧
+        ¬ queued w g (p + 1) := by
+  have hA := h0.reach hr
+  have h1 := (grant_invariant_reachable hr h0 hf).2 d g hd hq
+  have h2 := (evalDemand_need w d (gOf_not_cond hd)).1 hev
+  have hpos : 0 < (grantKeys w g).length := by unfold G at h1; omega
+  obtain ⟨k, hk⟩ := List.exists_mem_of_length_pos hpos
+  obtain ⟨e, he, _, hg01, hmem⟩ := mem_grantKeys.1 hk
+  obtain ⟨p, g', f, hb, hbl, hon, haw, hnq, _, _⟩ := hA.all.g.grant_owned he (Or.inl hg01)
+  have hgg : g = g' := by
+    rw [hb, Nat.add_sub_cancel, mem_awaits_guard, haw] at hmem
+    simpa using hmem
+  subst hgg
+  exact ⟨e, he, hg01.1, hg01.2, p, f, hb, hbl, hon, haw, hnq⟩
+
+/-- `quiescent_ok`: when nothing is left to dispatch in a reachable fault-free state, NO waiter of the guard of a
+    resource, pool, buffer end or queue end has a demand that holds — nobody stays blocked while it could be served -/
+theorem quiescent_ok {S : Nat → Prop} {w0 w : World} (hr : Reach w0 w) (h0 : GrantAll S w0) (hf : w.fault = none)
+    (hq : dispatch w = none) {d : Demand} {g : Nat} (hd : gOf w d = some g) {gd : Guard} (hg : w.guards[g]? = some gd) :
+    ∀ k ∈ keys (abs gd.q), demandOf gd k = d ∧ evalDemand w (demandOf gd k) = false := by
+  obtain ⟨h1, h2⟩ := (h0.reach hr).quiescent hf hq hd hg
+  intro k hk
+  refine ⟨h1 k hk, ?_⟩
+  rw [h1 k hk]
+  apply h2
+  intro hc
+  have : (abs gd.q).length = 0 := by rw [HashHeap.abs_length]; exact hc
+  obtain ⟨e, he, _⟩ := Event.mem_keys.1 hk
+  rw [List.length_eq_zero_iff] at this
+  rw [this] at he; cases he
+
+/-- the hypotheses hold for every scenario the harness can express (`Built`, Props/C04) whose programs respect the
+    documented precondition on signal values (`CmdOk`) and the typing of handle variables (`VarsOk`) -/
+theorem grant_invariant_loader {w0 : World} (hb : Built w0) (hsz : w0.procs.size < 2 ^ 31) (hv : VarsOk w0) :
+    GrantAll (CancelVar w0) w0 ∧ ∀ fuel, GrantAll (CancelVar w0) (runAll fuel w0) :=
+  ⟨hb.grantAll hsz hv, hb.grantRun hsz hv⟩
+
+theorem quiescent_ok_loader {w0 w : World} (hb : Built w0) (hsz : w0.procs.size < 2 ^ 31) (hv : VarsOk w0) (hr : Reach w0 w)
+    (hf : w.fault = none) (hq : dispatch w = none) {d : Demand} {g : Nat} (hd : gOf w d = some g) {gd : Guard}
+    (hg : w.guards[g]? = some gd) : ∀ k ∈ keys (abs gd.q), demandOf gd k = d ∧ evalDemand w (demandOf gd k) = false :=
+  quiescent_ok hr (hb.grantAll hsz hv) hf hq hd hg
+
+/-- the executable check of the variable typing is sound -/
+theorem vars_check_sound {w : World} (h : varsOkB w = true) : VarsOk w := varsOk_of_check h
+
+/- non-vacuity: a scenario with a resource, a subscribed condition and two competing processes (one arms a timer and
+   cancels it by value) is `Built`, satisfies `VarsOk`, hence `GrantAll` holds in every state of its run -/
+example : ∃ w0 : World, Built w0 ∧ VarsOk w0 ∧ w0.procs.size = 2 ∧ (∃ g, gOf w0 (.resAvail 0) = some g) ∧
+    ∀ fuel, GrantAll (CancelVar w0) (runAll fuel w0) := by
+  have hb : Built (autostart (autostart (subscribe (addProc (addProc (addCond (addRes {})) 0
+      #[(.acquire 0, "acquire 0"), (.hold 1, "hold 1"), (.release 0, "release 0")]) 1
+      #[(.timerAdd 0 2 7, "timer"), (.acquire 0, "acquire 0"), (.timerCancel 0, "cancel")]) 0 1) 0) 1) := by
+    refine .start 1 (.start 0 (.sub 0 1 (.proc 1 _ (.proc 0 _ (.cond (.res .empty)) ?_) ?_)))
+    · intro i c t h
+      rcases i with _ | _ | _ | i <;> cases h <;> trivial
+    · intro i c t h
+      rcases i with _ | _ | _ | i
+      · cases h; show encSig 7 ≠ 0; decide
+      · cases h; trivial
+      · cases h; trivial
+      · cases h
+  -- the process table and the resource table of that world
+  have hprocs : (autostart (autostart (subscribe (addProc (addProc (addCond (addRes {})) 0
+      #[(.acquire 0, "acquire 0"), (.hold 1, "hold 1"), (.release 0, "release 0")]) 1
+      #[(.timerAdd 0 2 7, "timer"), (.acquire 0, "acquire 0"), (.timerCancel 0, "cancel")]) 0 1) 0) 1).procs =
+      #[{ prio := 0, script := #[(.acquire 0, "acquire 0"), (.hold 1, "hold 1"), (.release 0, "release 0")] },
+        { prio := 1, script := #[(.timerAdd 0 2 7, "timer"), (.acquire 0, "acquire 0"), (.timerCancel 0, "cancel")] }] := by
+    simp only [autostart, sched_procs]; rfl
+  have hres : (autostart (autostart (subscribe (addProc (addProc (addCond (addRes {})) 0
+      #[(.acquire 0, "acquire 0"), (.hold 1, "hold 1"), (.release 0, "release 0")]) 1
+      #[(.timerAdd 0 2 7, "timer"), (.acquire 0, "acquire 0"), (.timerCancel 0, "cancel")]) 0 1) 0) 1).res = #[{ guard := 0 }] := by
+    simp only [autostart, sched_res]; rfl
+  have hv : VarsOk (autostart (autostart (subscribe (addProc (addProc (addCond (addRes {})) 0
+      #[(.acquire 0, "acquire 0"), (.hold 1, "hold 1"), (.release 0, "release 0")]) 1
+      #[(.timerAdd 0 2 7, "timer"), (.acquire 0, "acquire 0"), (.timerCancel 0, "cancel")]) 0 1) 0) 1) := by
+    intro p i c t hs
+    unfold World.proc at hs
+    rw [hprocs] at hs
+    rcases p with _ | _ | p
+    · rcases i with _ | _ | _ | i <;> cases hs <;> trivial
+    · rcases i with _ | _ | _ | i <;> cases hs <;> trivial
+    · cases hs
+  have hsz : (autostart (autostart (subscribe (addProc (addProc (addCond (addRes {})) 0
+      #[(.acquire 0, "acquire 0"), (.hold 1, "hold 1"), (.release 0, "release 0")]) 1
+      #[(.timerAdd 0 2 7, "timer"), (.acquire 0, "acquire 0"), (.timerCancel 0, "cancel")]) 0 1) 0) 1).procs.size = 2 := by
+    rw [hprocs]; rfl
+  refine ⟨_, hb, hv, hsz, ⟨0, ?_⟩, fun fuel => hb.grantRun (by rw [hsz]; decide) hv fuel⟩
+  simp only [gOf, hres]; rfl
+
+/-- the original `GrantInv` (S3Grant: whenever the front waiter of a non-condition guard could be served, a grant is
+    pending at the current time) is a corollary: `GT` = every pending grant is due at the current time (while a grant is
+    pending the clock does not move), `Cover` = every guard that is not a condition's is the guard of an object end
+    (static) -/
+theorem grant_inv_reachable {S : Nat → Prop} {w0 w : World} (hr : Reach w0 w) (h0 : GrantAll S w0) (ht : GT w0) (hc : Cover w0)
+    (hf : w.fault = none) : GrantInv w := by
+  have hA := h0.reach hr
+  have hst : Stat w0 w := by
+    clear hA hf
+    induction hr with
+    | refl => exact Stat.refl _
+    | step _ hd ih => exact ih.trans (Stat.dispatch hd)
+  exact grantInv_of_all hA (GT.reach hr ht h0.all.g.ei).1 (hc.ofStat hst) hf
+
+theorem grant_inv_loader {w0 w : World} (hb : Built w0) (hsz : w0.procs.size < 2 ^ 31) (hv : VarsOk w0) (hr : Reach w0 w)
+    (hf : w.fault = none) : GrantInv w :=
+  grant_inv_reachable hr (hb.grantAll hsz hv) hb.gt hb.cover hf
+
+/- non-vacuity of `quiescent_ok_loader`: a built world with a resource and a process that is never started is quiescent,
+   fault-free, and has an object end with a guard -/
+example : ∃ w0 : World, Built w0 ∧ VarsOk w0 ∧ w0.procs.size < 2 ^ 31 ∧ Reach w0 w0 ∧ w0.fault = none ∧ dispatch w0 = none ∧
+    ∃ g gd, gOf w0 (.resAvail 0) = some g ∧ w0.guards[g]? = some gd := by
+  have hb : Built (addProc (addRes {}) 0 #[(.acquire 0, "acquire 0"), (.release 0, "release 0")]) := by
+    refine .proc 0 _ (.res .empty) ?_
+    intro i c t h
+    rcases i with _ | _ | i <;> cases h <;> trivial
+  refine ⟨_, hb, ?_, by decide, Reach.refl _, rfl, by decide, 0, { q := mkHH 3, isCond := false }, rfl, rfl⟩
+  intro p i c t hs
+  rcases p with _ | p
+  · rcases i with _ | _ | i <;> cases hs <;> trivial
+  · cases hs
 
 end CimbaModel.Props.C08
